@@ -89,8 +89,10 @@ class Ctx:
         self._cg = {}
         self.extract_s = 0.0
         self.seed = int(os.environ.get("VERIF_SEED", "0") or 0)
+        self.default_config = "default"
 
-    def facts(self, config="default"):
+    def facts(self, config=None):
+        config = config or self.default_config
         if config not in self._facts:
             pre = os.environ.get("VERIF_FACTS_" + config.upper())
             if pre and os.path.exists(pre):
@@ -101,7 +103,8 @@ class Ctx:
                 self._facts[config] = F
         return self._facts[config]
 
-    def cg(self, config="default"):
+    def cg(self, config=None):
+        config = config or self.default_config
         if config not in self._cg:
             self._cg[config] = CallGraph(self.facts(config))
         return self._cg[config]
@@ -141,12 +144,28 @@ def run_property(prop, tier, repo=None, write=True):
         sys.exit(2)
     rep = Report(prop)
     mod.run(ctx, rep)
+    selftest = None
+    if tier == "thorough":
+        # (1) the second build configuration: every rule again on the MIR of `--features rayon`
+        if prop != "C18":   # C18 compares the two configurations itself
+            ctx2 = Ctx(tier, repo)
+            ctx2.default_config = "rayon"
+            ctx2._facts, ctx2._cg = ctx._facts, ctx._cg
+            rep2 = Report(prop)
+            mod.run(ctx2, rep2)
+            ctx.extract_s += ctx2.extract_s
+            for ob in rep2.obs:
+                ob.key = "[rayon] " + ob.key
+                rep.obs.append(ob)
+            rep.notes.update({"rayon:" + k: v for k, v in rep2.notes.items()})
+        # (2) sensitivity self-test: the stored seeded breaks must still be reported when applied to today's tree
+        selftest = run_selftests(prop, ctx.repo, {(o.rule, o.key) for o in rep.obs if not o.ok})
     known = load_known()
     viol, kf = [], []
     for ob in rep.obs:
         if ob.ok:
             continue
-        k = (prop, ob.full_key())
+        k = (prop, ob.full_key().replace("[rayon] ", "", 1))
         if k in known:
             ob.known = known[k]
             kf.append(ob)
@@ -201,6 +220,9 @@ def run_property(prop, tier, repo=None, write=True):
         "notes": rep.notes,
         "extract_seconds": round(ctx.extract_s, 2),
     }
+    if selftest is not None:
+        cov["selftest_seeded_breaks"] = selftest
+        cov["configurations"] = sorted(ctx._facts.keys())
     ev = {
         "property_id": prop,
         "tier": tier,
@@ -216,6 +238,57 @@ def run_property(prop, tier, repo=None, write=True):
     print("%s %s: %d rule instances, %d ok, %d known findings, %d violations (%.1fs)" %
           (prop, tier, len(rep.obs), len(oks), len(kf), len(viol), wall))
     return rep, viol, kf
+
+
+def run_selftests(prop, repo, base_bad):
+    """apply each stored seeded break (seeded/<prop>*/patch.diff) to a scratch copy of the tree under analysis and
+    re-run the quick rules on it: a break that applies must add at least one violation.  Static all the way: the
+    patched source is only compiled to MIR and analysed, never run."""
+    from concurrent.futures import ThreadPoolExecutor
+    sd = os.path.join(VERIF, "seeded")
+    seeds = []
+    if os.path.isdir(sd):
+        for d in sorted(os.listdir(sd)):
+            pd = os.path.join(sd, d, "patch.diff")
+            if os.path.exists(pd):
+                try:
+                    meta = json.load(open(os.path.join(sd, d, "meta.json")))
+                except Exception:
+                    meta = {}
+                if prop in (meta.get("caught_by") or [meta.get("property")]):
+                    seeds.append((d, pd))
+
+    def one(item):
+        name, pd = item
+        tmp = tempfile.mkdtemp(prefix="flacseed-")
+        try:
+            subprocess.check_call(["rsync", "-a", "--exclude", "target", "--exclude", ".git", repo.rstrip("/") + "/", tmp + "/"])
+            r = subprocess.run(["patch", "-p1", "-s", "-f", "-d", tmp, "-i", pd], capture_output=True, text=True)
+            if r.returncode != 0:
+                return {"seed": name, "result": "skipped", "why": "patch does not apply to the tree under analysis"}
+            env = dict(os.environ, VERIF_REPO=tmp, VERIF_EVIDENCE_DIR=os.path.join(tmp, ".ev"))
+            for c in ("DEFAULT", "RAYON"):
+                env.pop("VERIF_FACTS_" + c, None)
+            r = subprocess.run([sys.executable, os.path.join(HERE, "run.py"), prop, "quick"], env=env, capture_output=True, text=True, cwd=VERIF)
+            if r.returncode not in (0, 1):
+                return {"seed": name, "result": "skipped", "why": "patched tree does not build"}
+            got = set()
+            for l in r.stdout.splitlines():
+                if l.startswith("  rule="):
+                    rule = l.split("rule=", 1)[1].split(" instance=", 1)[0]
+                    inst = l.split(" instance=", 1)[1].rsplit(" at ", 1)[0]
+                    got.add((rule, inst))
+            new = sorted(x for x in got if not any(x[0] == b[0] and b[1].endswith(x[1][:60]) or x == b for b in base_bad))
+            return {"seed": name, "result": "detected" if new else "MISSED", "new_violations": ["%s | %s" % x for x in new[:4]]}
+        finally:
+            shutil.rmtree(tmp, ignore_errors=True)
+    with ThreadPoolExecutor(max_workers=4) as ex:
+        res = list(ex.map(one, seeds))
+    for r in res:
+        if r["result"] == "MISSED":
+            sys.stderr.write("SELFTEST-MISS property=%s seed=%s : a stored seeded break is no longer reported\n" % (prop, r["seed"]))
+    return {"seeds": len(seeds), "detected": sum(1 for r in res if r["result"] == "detected"), "skipped": sum(1 for r in res if r["result"] == "skipped"),
+            "missed": sum(1 for r in res if r["result"] == "MISSED"), "results": res}
 
 
 def main(argv):
